@@ -72,6 +72,13 @@ add("C17", "reflection/parser-enumerated API on inert receivers (total enumerati
     "Every exported method of Stack, Condition and Auxiliary x 8 argument variants x 6 inert receiver states, and every package-level function (table generated from /repo's sources) x 24 variants: no panic, zero results by type, the instance stays zero (except Marshal / Condition.Init); Free zeroes writable handles and refuses read-only ones; Reset empties stacks holding nil elements while keeping the configuration. Total for the enumerated API, exploration for sequences.",
     "Trusted: reflection method sets; go/parser table of package-level functions; strings and Is* predicates are not asserted on inert receivers; constructor capacities are kept small (allocation limits are not the property).")
 
+add("C08", "bounded-exhaustive index grid + exhaustive awkward-value catalogue over reflected methods + rapid-generated call sequences; snapshot-unchanged and list-model oracles; full follow-up query set",
+    "Every int-taking Stack method x boundary indices {MinInt.., -Len-1..Len+1, ..MaxInt} (all pairs for two-index methods) x lengths 0..4 x nil slot x index options x capacity, and every any/Operator-taking Stack and Condition method x a 65-entry catalogue of awkward values: no panic; unaddressed indices report failure with an identical snapshot; addressed ones act per the list model; afterwards the whole query and mutator set still works. Exhaustive for the grid and the single-call catalogue; exploration for sequences.",
+    "Trusted: list model, addressing rule of the statement, VerifDump snapshot. Replace/Swap under index options are compared leniently (undocumented).")
+add("C18", "bounded-exhaustive enumeration of short option-setter sequences from all 256 option states + rapid-generated long mixed sequences, against a record model; raw bits read through VerifDump and confirmed behaviourally",
+    "All {set,clear,toggle} x reflected tri-state setters from every initial option state, all length-2 (and length-3 from selected/all states) sequences, plus generated 5..40-step sequences mixed with ID/category/delimiter/symbol/encapsulation/auxiliary/log-level/FIFO setters and content edits: raw option bits, getters, stored settings, content, canonical String() and Index(-1)/Index(Len+5) behaviour must match the model after every step. Exhaustive for the enumerated sequences.",
+    "Trusted: record model, reference renderer, VerifDump. UnsetLogLevel(all) outcome left open (docs silent).")
+
 NOT_YET = {}
 
 ALL = ["C%02d" % i for i in range(1, 21)]
